@@ -2516,6 +2516,21 @@ fn xcorpus() -> Vec<(Vec<XStep>, Option<(&'static str, &'static str)>)> {
     ]
 }
 
+/// the coverage self-audit against the eleven miss classes (DESIGN.md §4 C05 "Coverage audit")
+const AUDIT: &str = r####"{
+ "1 entry paths": "CLOSED: the match arms of the handler's two transaction blocks, of execute_connection_level, of the executor's queueing prologue, the stub names, the functions of transaction_ops.rs, the files of src/ that mention transaction state and the command loops a MULTI can reach are READ FROM THE SOURCE the binary was built against (c05x::source_scan) and compared with the table of what is driven: a new arm / stub / file / front end fails the check (C05:coverage:…:not-driven / …:gone / scan-failed). Every arm is driven: decision table extracted cell by cell from the real handler (15 reachable state classes × 26 inputs over the 11 input classes; TBL op against the model's table), every connection-level arm and stub inside EXEC vs outside (connection_level_sweep), every Command variant queued and EXECed on a real executor vs outside (executor_variant_sweep, C17's exhaustive all_variants). Front ends: production handler (H1), CommandExecutor, SimulationHarness and RedisServer (one executor for all clients: model Txn.xsharedRun), ReplicatedShardedState::execute = the loop of server_persistent (model Txn.rstep), SimulatedConnection (cannot carry MULTI: probed). OPEN: the ACL check of queued commands (feature `acl` off in the harness build: inside MULTI the handler performs no ACL check at all, neither at queue time nor at EXEC — noted, not driven); Maelstrom adapters (never build a transaction command).",
+ "2 input alphabet": "CLOSED: watched / written keys: empty key, a key that is not UTF-8 on the wire (0xFF → U+FFFD in WATCH, in the data commands and in the store alike), CR LF and blanks inside a key, 300-byte key, multi-byte UTF-8; values: empty, binary incl. CR LF / NUL / 0xFF, 70 000 bytes (beyond the duplex and read buffers), integers at the i64 limit, non-canonical integers; all five value types as watched keys (WATCH matrix); protocol garbage. OPEN: keys that differ only in invalid bytes collapse onto one key (lossy conversion) — the same in every path, C16's subject.",
+ "3 comparisons at equality": "CLOSED: resp_values_equal on every GET-reply pair that can occur (nil / bytes / WRONGTYPE × same / same length / different length: matrix rows same-value-rewrite, same-length-replacement, change-and-change-back, delete-recreate); executor-level Value equality per type incl. score-only changes; queue length 0 / 1 / 2 / 3000; deadline of a watched key 1 ms before / exactly at / 1 ms after the EXEC instant (executor level, evicting and lazy clock); transaction_errors with 0 / 1 / several refused inputs; buffer length just below / at / above min_pipeline_buffer (13 / 14 / 60 with 13- and 14-byte reads).",
+ "4 configuration": "CLOSED: every field of ConnectionConfig is generated input (1 in 4 random sessions + 70 scripted ones): read_buffer_size 1 / 2 / 7 / 13 / 14 / 16 / 64 / 8192 (frames split at every byte), min_pipeline_buffer 0 / 1 / 13 / 14 / 60 / 2^20, batch_threshold 0 / 1 / 2 / 3 / 64, max_buffer_size 256 / 2^20 / default, with transactions sent in one write that begin with and contain runs of GETs and SETs (the shapes the batch collectors and the fast path look for: they must stay out of a transaction); shard counts 1 and 4. OPEN: ACL configuration (feature off), TLS.",
+ "5 capacity thresholds": "CLOSED: queue of 3000 commands filled 64 per write (beyond read buffer, duplex buffer and any Vec growth step), EXEC reply of 3000 results; 300 keys in one WATCH and 200 further WATCH commands (snapshot list of 500 entries, one awaited GET each at EXEC); 70 000-byte value inside a transaction; max_buffer_size crossed between MULTI and EXEC (error reply, connection closed, nothing applied).",
+ "6 fault kinds": "CLOSED: connection closed between MULTI and EXEC (clean, and with half a frame written), closed by the server for buffer overflow, protocol error between MULTI and EXEC and outside (error reply, buffer dropped, transaction NOT flagged — the code as it is, table_protocol_error), run-time failing commands inside EXEC (WRONGTYPE, not an integer, overflow, no such key), refused inputs (unknown command, arity error, channel stub), a reply that never comes (20 s timeout → named outcome). OPEN: a shard actor that dies mid-EXEC (`ERR shard response failed`) — no way to kill an actor from outside.",
+ "7 history shapes": "CLOSED: twelve transactions in a row on one connection ending in every way (EXEC, DISCARD, EXECABORT, WATCH abort) followed by every other; re-WATCH of a watched key; WATCH carried across a failed DISCARD / EXEC outside MULTI; a transaction abandoned by a closed connection followed by a fresh connection; expired-but-unevicted watched key at the executor level (lazy clock: recorded, see assumptions); delete-and-recreate, change-and-change-back, type change; emptied-then-refilled collections.",
+ "8 node-global state": "CLOSED: the shard executors' own transaction state is node-global and is reached by no path of the production handler (source scan: the handler intercepts MULTI / EXEC / DISCARD / WATCH; a queued UNWATCH reaches shard 0 and finds nothing) but IS the state that SimulationHarness / RedisServer / the replicated front end expose (driven; two known findings); the script cache (EVAL / SCRIPT LOAD / EVALSHA inside EXEC vs outside); the ACL manager (ACL SETUSER / DELUSER inside EXEC vs outside); the wall clock (TTL flags after EXEC vs the twin). OPEN: metrics counters (not observable by a client).",
+ "9 observations": "CLOSED: every reply of every input, the typed value of every key of the session after every EXEC / DISCARD / close (member by member), which keys carry a deadline after EXEC vs the sequential twin (C05:exec:ttl-differs-from-sequential), the NEXT state of the machine after every (state, input) pair — observed through probes (queue length, error flag, whether the old and the newly named keys are still watched). OPEN: exact TTL values (wall clock), INFO counters.",
+ "10 finding signatures": "CLOSED (§10.6) and extended: the two new findings are keyed by cause — the shared-executor finding fires only when the result count is exactly own + captured-foreign with the model predicting each reply; the replicated finding only after a MULTI answered `unknown command` with the command answered in the plain; everything else gets its own signature (C05:x:shared:exec-result-count, C05:replicated-frontend:queued-command-changed-the-store, C05:x:sweep:…, C05:exec:sweep:…, C05:close:…, C05:overflow:…, C05:table:…).",
+ "11 harness fragility": "CLOSED: the source tree is found through the harness's own Cargo.toml (never a hard-coded /repo); a scan that does not find its anchors is a violation (scan-failed); every WATCH-matrix cell and every decision-table cell must have been driven exactly once (C05:harness:empty-cell, C05:table:empty-cell, probe-unreadable); a reply that never comes is a named outcome; executor calls under catch_unwind report `crash`; the panics of the sweeps are violations, not skips. OPEN: a panic inside a spawned connection task shows as `?connection closed` (compared, so not silent)."
+}"####;
+
 pub fn run(a: &Args) {
     let mut out = Out::new(&a.out);
     let mut rng = Rng::new(a.seed);
@@ -2533,6 +2548,7 @@ pub fn run(a: &Args) {
     crate::c05x::simulated_connection(&mut out);
     crate::c05x::connection_level_sweep(&mut out);
     crate::c05x::executor_variant_sweep(&mut out, &mut Rng::new(0xC05));
+    crate::c05x::executor_lazy_clock_probe(&mut out);
     crate::c05x::shared_executor(&mut out, &mut rng.fork(), a.n / 8);
     crate::c05x::replicated_frontend(&mut out, &mut rng.fork(), (a.n / 40).min(2000));
     // audit corpus: faults, capacity, alphabet, configuration, histories
@@ -2602,6 +2618,29 @@ pub fn run(a: &Args) {
         steps.push(XStep::Exec);
         xsession(&mut out, &mut Rng::new(0xC05), Some(steps), None, Some(format!("{}:{}", ty, label)));
     }
+    // no silently empty cell: every (level × type × modification) of the WATCH matrix and every
+    // cell of the decision table must have been counted exactly once
+    {
+        let mut missing = Vec::new();
+        for (ty, _, label, _) in matrix() {
+            for level in ["connection-1shard", "connection-4shard", "executor"] {
+                let prefix = format!("watchmatrix:{}:{}:{}:", level, ty, label);
+                let n: u64 = out.dist.iter().filter(|(k, _)| k.starts_with(&prefix)).map(|(_, v)| *v).sum();
+                if n != 1 {
+                    missing.push(format!("{} ({} outcomes)", prefix, n));
+                }
+            }
+        }
+        let want_cells = cell_states().len() * cell_inputs().len();
+        let got_1shard = out.extra.get("decision_table_extracted_from_the_real_handler:1shard").and_then(|v| v.as_object()).map(|m| m.len()).unwrap_or(0);
+        if got_1shard != want_cells {
+            missing.push(format!("decision table: {} of {} cells extracted on 1 shard", got_1shard, want_cells));
+        }
+        if !missing.is_empty() {
+            out.violation("C05:harness:empty-cell", &format!("cells of the WATCH matrix / decision table that were not driven exactly once: {:?}", missing), json!({"cells": missing}));
+        }
+    }
+    out.extra.insert("audit".into(), serde_json::from_str(AUDIT).expect("audit json"));
     // a fresh runtime every 200 sessions: the shard actors of finished sessions go away with it
     let mut done = 0;
     while done < a.n {
